@@ -487,6 +487,14 @@ class SynthDef(metaclass=MetaSynthDef):
         first_err = None
         for ugen in self._children:
             err = ugen._check_inputs() # pong
+            if not err:
+                # Whatever the unit's own check looks at, its
+                # inputs must be units of this definition.
+                for input in ugen.inputs:
+                    if isinstance(input, ugn.SynthObject)\
+                    and input._synthdef is not self:
+                        err = f'has a unit of another SynthDef as input: {input}'
+                        break
             if err:
                 # err = ugen.class.asString + err;
                 # err.postln;
